@@ -34,13 +34,13 @@ func newBase(rule rule) Base {
 	switch {
 	case strings.Contains(comment, "file_inherit"):
 		fileInherit = true
-		comment = strings.Replace(comment, "file_inherit ", "", 1)
+		comment = stripMarker(comment, "file_inherit")
 	case strings.HasPrefix(comment, "no new privs"):
 		noNewPrivs = true
 		comment = strings.Replace(comment, "no new privs ", "", 1)
 	case strings.Contains(comment, "optional:"):
 		optional = true
-		comment = strings.Replace(comment, "optional: ", "", 1)
+		comment = stripMarker(comment, "optional:")
 	}
 	return Base{
 		Comment:     comment,
@@ -48,6 +48,15 @@ func newBase(rule rule) Base {
 		FileInherit: fileInherit,
 		Optional:    optional,
 	}
+}
+
+// stripMarker removes a marker from a comment the way it is rendered: " marker"
+// in front of the rest of the comment, that can be empty.
+func stripMarker(comment string, marker string) string {
+	if res := strings.Replace(comment, " "+marker, "", 1); res != comment {
+		return res
+	}
+	return strings.Replace(comment, marker+" ", "", 1)
 }
 
 // setComment sets the base fields from a raw inline comment
